@@ -565,6 +565,18 @@ func checkC07(P *Program, r *Result, tier string) {
 								if cv, isCv := ref2.(*ssa.Convert); isCv {
 									_ = cv
 								}
+								if ph, isPhi := ref2.(*ssa.Phi); isPhi {
+									// a phi uses the value on the incoming edge: the edge's source must be guarded
+									for k, e := range ph.Edges {
+										if e == ssa.Value(ld) {
+											pb := ph.Block().Preds[k]
+											if !guardedBy(pb.Instrs[len(pb.Instrs)-1], bo, bo.Op == token.GEQ) {
+												okNeg = false
+											}
+										}
+									}
+									continue
+								}
 								if in2, isIn := ref2.(ssa.Instruction); isIn && ref2 != ssa.Instruction(bo) {
 									if !guardedBy(in2, bo, bo.Op == token.GEQ) {
 										okNeg = false
